@@ -229,7 +229,10 @@ func c18Mutations() []string {
 			}
 		}
 		out = append(out, "DELETE FROM "+tbl, fmt.Sprintf("UPDATE %s SET a = b", tbl), fmt.Sprintf("UPDATE %s SET a = 1, a = 2", tbl), fmt.Sprintf("UPDATE %s SET a = 1 WHERE c AND d", tbl),
-			fmt.Sprintf("DELETE FROM %s WHERE a", tbl), fmt.Sprintf("DELETE FROM %s WHERE 1", tbl), fmt.Sprintf("DELETE FROM %s WHERE a = 1 OR c", tbl), "INSERT INTO "+tbl+" VALUES ()", "INSERT INTO "+tbl+" () VALUES ()")
+			fmt.Sprintf("DELETE FROM %s WHERE a", tbl), fmt.Sprintf("DELETE FROM %s WHERE 1", tbl), fmt.Sprintf("DELETE FROM %s WHERE a = 1 OR c", tbl), "INSERT INTO "+tbl+" VALUES ()", "INSERT INTO "+tbl+" () VALUES ()",
+			// statements that stop where a list would begin (whichever of them the parser lets through)
+			"INSERT INTO "+tbl+" VALUES", "INSERT INTO "+tbl+" (a, c) VALUES", "INSERT INTO "+tbl, "INSERT INTO "+tbl+" (a)", "INSERT INTO "+tbl+" VALUES (1), ()",
+			"UPDATE "+tbl+" SET", "UPDATE "+tbl, "DELETE FROM "+tbl+" WHERE", "CREATE TABLE "+tbl+"x", "CREATE TABLE "+tbl+"y (")
 	}
 	out = append(out,
 		"CREATE TABLE t (a int)", "CREATE TABLE n1 ()", "CREATE TABLE (a int)", "CREATE TABLE n2 (a int, a int)", "CREATE TABLE n3 (a varchar(0))", "CREATE TABLE n4 (a varchar(9223372036854775807))",
